@@ -9,11 +9,13 @@
 package mcpx
 
 import (
+	"bytes"
 	"context"
 	"encoding/json"
 	"errors"
 	"fmt"
 	"io"
+	"net/http"
 	"strings"
 	"sync"
 	"testing"
@@ -45,6 +47,7 @@ type c04Spec struct {
 	Propagate       bool      `json:"propagate,omitempty"`    // stateless HTTP: StreamableHTTPOptions.PropagateRequestCancellation
 	BlockAt         int       `json:"block_at_ms,omitempty"`  // sdk mode: a client notification sent at this instant whose server handler blocks ...
 	BlockMs         int       `json:"block_ms,omitempty"`     // ... for this long (0: none): cancellation notices must not queue behind it
+	BodyLatencyMs   int       `json:"body_latency_ms,omitempty"` // http-json: the JSON body of every tools/call response is this long in transit after its headers (a cancel or deadline can fall into that window)
 	DrainCancel     int       `json:"drain_cancel,omitempty"` // sdk mode, persistent transports: at the end this many parked calls are cancelled while the callee is already draining under a graceful Close
 }
 
@@ -117,6 +120,18 @@ func genC04(r *vh.Rand) c04Spec {
 		for i := range s.Calls {
 			if s.Calls[i].CancelAt > s.Calls[i].StartAt && s.Calls[i].Dir != "s2c" && r.Chance(1, 3) {
 				s.Calls[i].ByDeadline = true
+			}
+		}
+	}
+	if s.Mode == "sdk" && s.Transport == "http-json" && r.Bool() {
+		s.BodyLatencyMs = r.Range(1, 4)
+		for i := range s.Calls {
+			// aim half of the cancellations at the window in which the answer is on its way
+			if q := &s.Calls[i]; q.CancelAt >= 0 && q.Dir == "" && r.Bool() {
+				q.ReleaseAt = max(q.StartAt, q.CancelAt-r.Range(1, s.BodyLatencyMs))
+				if q.CancelAt <= q.ReleaseAt {
+					q.CancelAt = q.ReleaseAt + 1
+				}
 			}
 		}
 	}
@@ -288,7 +303,13 @@ func runC04SDK(c *vh.Case, spec c04Spec) {
 			return &mcp.CreateMessageResult{Model: "m", Role: "assistant", Content: &mcp.TextContent{Text: fmt.Sprintf("nonce-%d", n)}}, nil
 		},
 	})
-	pair, err := vhm.Connect(ctx, vhm.PairOpts{Kind: spec.Transport, Server: server, Client: client, ClientVersion: spec.Version, DisableStandaloneSSE: spec.NoStandaloneSSE, AsyncDelete: true, HTTPOpts: &mcp.StreamableHTTPOptions{PropagateRequestCancellation: spec.Propagate}})
+	pair, err := vhm.Connect(ctx, vhm.PairOpts{Kind: spec.Transport, Server: server, Client: client, ClientVersion: spec.Version, DisableStandaloneSSE: spec.NoStandaloneSSE, AsyncDelete: true, HTTPOpts: &mcp.StreamableHTTPOptions{PropagateRequestCancellation: spec.Propagate},
+		BodyLatency: func(req *http.Request, body []byte) time.Duration {
+			if spec.BodyLatencyMs > 0 && req.Method == http.MethodPost && bytes.Contains(body, []byte(`"name":"park"`)) {
+				return ms(spec.BodyLatencyMs)
+			}
+			return 0
+		}})
 	if err != nil {
 		c.Inconclusive("connect %s: %v", spec.Transport, err)
 		return
@@ -624,6 +645,12 @@ func decideC04(c *vh.Case, spec c04Spec) {
 		if _, ok := hstart[n]; !ok && released && spec.Mode == "sdk" && cancelled {
 			released = false // cancelled before its handler was ever dispatched: no response can exist
 		}
+		// the response reaches the caller when its body has travelled (http-json with a slow body); the handler
+		// side below keeps judging by the instant the handler answered
+		rtHandler := rt
+		if released && spec.BodyLatencyMs > 0 && cs.Dir == "" {
+			rt += int64(spec.BodyLatencyMs) * 1000
+		}
 		switch {
 		case cancelled && (!released || ct < rt):
 			if r.T != ct {
@@ -653,7 +680,10 @@ func decideC04(c *vh.Case, spec c04Spec) {
 			hd, hasDone := hdone[n]
 			hs, hasStart := hstart[n]
 			switch {
-			case cancelled && (!released || ct < rt):
+			case cancelled && released && ct > rtHandler && ct <= rt:
+				// cancelled while the answer was on its way: the handler had already returned
+				c.Count("cancelled_while_body_in_transit", 1)
+			case cancelled && (!released || ct < rtHandler):
 				// the matching handler, if it was already running when the cancel happened
 				// ("during handling"), must see the cancellation at the cancel instant
 				if hasStart && hs.Seq < cancelSeq[n] && (!cs.ByDeadline || hs.T < ct) {
@@ -672,7 +702,7 @@ func decideC04(c *vh.Case, spec c04Spec) {
 						return
 					}
 				}
-			case cancelled && released && ct == rt:
+			case cancelled && released && ct == rtHandler:
 				// tie: either
 			default:
 				// never cancelled (or cancelled only after the response): must not be cancelled before closing
